@@ -16,3 +16,5 @@ open A2l.Srt
 #print axioms iterInv_preserved
 #print axioms placed_order_stable_k_calls_partial
 #print axioms placed_order_stable_ties_partial
+#print axioms placedDistinct_of_increasing
+#print axioms iterInv_after_sort
